@@ -429,6 +429,10 @@ fn mk_rng(c: &FwCase) -> ScriptRng {
 }
 
 fn run_actions_only(c: &FwCase, clone_at: Option<usize>) -> Vec<String> {
+    run_actions_copy(c, clone_at, CopyHow::Clone)
+}
+
+fn run_actions_copy(c: &FwCase, clone_at: Option<usize>, how: CopyHow) -> Vec<String> {
     let mut res = Vec::new();
     let rng = mk_rng(c);
     let r = catch_unwind(AssertUnwindSafe(|| Framework::new(c.machines.clone(), c.fp, c.fb, VInstant(c.t0), rng)));
@@ -438,8 +442,8 @@ fn run_actions_only(c: &FwCase, clone_at: Option<usize>) -> Vec<String> {
     };
     for (i, (t, evs)) in c.calls.iter().enumerate() {
         if clone_at == Some(i) {
-            // continue on a clone; the original is dropped
-            f = clone_fw(&f);
+            // continue on a copy; the original is dropped
+            f = if how == CopyHow::Clone { clone_fw(&f) } else { copy_fw(&f, c, how) };
         }
         let r = catch_unwind(AssertUnwindSafe(|| {
             let acts: Vec<TriggerAction<VInstant>> = f.trigger_events(evs, VInstant(*t)).cloned().collect();
@@ -464,16 +468,76 @@ fn clone_fw(f: &Framework<Vec<Machine>, ScriptRng, VInstant>) -> Framework<Vec<M
     f.clone()
 }
 
+/// how the mid-history copy is made: `Clone::clone`, or `Clone::clone_from` into an instance with a
+/// different past (a fresh one without machines created later, or a used one with one machine more that
+/// has already counted packets and blocked time)
+#[derive(Clone, Copy, PartialEq, Debug)]
+enum CopyHow {
+    Clone,
+    FromFresh,
+    FromUsed,
+}
+
+fn copy_fw(f: &Framework<Vec<Machine>, ScriptRng, VInstant>, c: &FwCase, how: CopyHow) -> Framework<Vec<Machine>, ScriptRng, VInstant> {
+    match how {
+        CopyHow::Clone => f.clone(),
+        CopyHow::FromFresh => {
+            let mut spare = match Framework::new(vec![], 0.0, 0.0, VInstant(c.t0 + 8_000_000_000), ScriptRng::new(99, 0)) {
+                Ok(s) => s,
+                Err(_) => return f.clone(),
+            };
+            spare.clone_from(f);
+            spare
+        }
+        CopyHow::FromUsed => {
+            let mut ms = c.machines.clone();
+            if let Some(m) = c.machines.first() {
+                ms.push(m.clone());
+            }
+            let mut spare = match Framework::new(ms, 0.0, 0.0, VInstant(c.t0 - 3_000_000_000), ScriptRng::new(98, 0)) {
+                Ok(s) => s,
+                Err(_) => return f.clone(),
+            };
+            let id = MachineId::from_raw(0);
+            let mut t = c.t0 - 3_000_000_000;
+            let script = [
+                TriggerEvent::NormalSent,
+                TriggerEvent::PaddingSent { machine: id },
+                TriggerEvent::PaddingSent { machine: id },
+                TriggerEvent::BlockingBegin { machine: id },
+                TriggerEvent::NormalRecv,
+                TriggerEvent::BlockingEnd,
+                TriggerEvent::TimerBegin { machine: id },
+                TriggerEvent::NormalSent,
+            ];
+            for e in script.iter() {
+                t += 400_000_000;
+                let r = catch_unwind(AssertUnwindSafe(|| {
+                    for _ in spare.trigger_events(std::slice::from_ref(e), VInstant(t)) {}
+                }));
+                if r.is_err() {
+                    return f.clone();
+                }
+            }
+            spare.clone_from(f);
+            spare
+        }
+    }
+}
+
 /// `o DET ok|fail`: the same inputs give the same actions (second instance, and a clone taken mid-history).
 pub fn det_line(c: &FwCase, p: &mut Prng) -> String {
     let a = run_actions_only(c, None);
     let b = run_actions_only(c, None);
     let at = if c.calls.is_empty() { None } else { Some(p.below(c.calls.len() as u64) as usize) };
     let d = run_actions_only(c, at);
-    if a == b && a == d {
+    let e = run_actions_copy(c, at, CopyHow::FromFresh);
+    let g = run_actions_copy(c, at, CopyHow::FromUsed);
+    if a == b && a == d && a == e && a == g {
         "det ok\n".into()
     } else {
-        format!("det fail clone_at={:?}\n", at)
+        let which = if a != b { "second-instance" } else if a != d { "clone" } else if a != e { "clone_from-into-fresh-instance" } else { "clone_from-into-used-instance" };
+        format!("det fail clone_at={:?} {}\n", at, which)
     }
 }
 
